@@ -257,9 +257,44 @@ pub struct RegAct {
 #[derive(Clone)]
 pub struct Seq {
     pub depth: usize,
+    /// run the sequence on Arc<Mutex<MemoryStore>> instead of the contract store
+    pub memory: bool,
+}
+#[derive(Clone)]
+enum SeqStore {
+    Ref(Shared<RefStore>),
+    Mem(Arc<tokio::sync::Mutex<MemoryStore>>),
+}
+impl SeqStore {
+    fn recs_sorted(&self) -> Vec<Rec> {
+        match self {
+            SeqStore::Ref(s) => s.recs(),
+            SeqStore::Mem(m) => m.recs(),
+        }
+    }
 }
 const SEQ_ORGS: [Org; 2] = [Org::HostIsRp, Org::Idn];
 
+fn seq_init_any(init: usize, memory: bool) -> SeqStore {
+    let r = seq_init(init);
+    if memory {
+        let m: MemoryStore = r.0.lock().unwrap().items.iter().map(|p| (p.credential_id.to_vec(), p.clone())).collect();
+        SeqStore::Mem(Arc::new(tokio::sync::Mutex::new(m)))
+    } else {
+        SeqStore::Ref(r)
+    }
+}
+fn seq_apply_any(store: &SeqStore, a: &RegAct) -> RegCheck {
+    match store {
+        SeqStore::Ref(r) => seq_apply(r, a),
+        SeqStore::Mem(m) => {
+            let org = SEQ_ORGS[a.rp as usize % 2];
+            let c = Case { user: a.user, org, rk: a.rk, counter: a.rk, decor: a.user % 2 == 1, memory_store: true, ..base() };
+            let mut client = mk_client(m.clone(), ScriptedUv::consenting(Log::new()), org, &AuthCfg { counter: c.counter, ..Default::default() });
+            check_registration(&mut client, &|| m.recs(), &c)
+        }
+    }
+}
 fn seq_init(init: usize) -> Shared<RefStore> {
     let items = match init {
         0 => vec![],
@@ -280,6 +315,17 @@ type SeqSnap = Vec<(String, Option<Vec<u8>>, Option<u32>)>;
 fn seq_snap(store: &Shared<RefStore>) -> SeqSnap {
     store.0.lock().unwrap().recs_ordered().into_iter().map(|r| (r.rp, r.handle, r.counter)).collect()
 }
+fn seq_snap_any(store: &SeqStore) -> SeqSnap {
+    match store {
+        SeqStore::Ref(r) => seq_snap(r),
+        SeqStore::Mem(_) => {
+            // the map has no order: canonical form is the sorted multiset
+            let mut v: SeqSnap = store.recs_sorted().into_iter().map(|r| (r.rp, r.handle, r.counter)).collect();
+            v.sort();
+            v
+        }
+    }
+}
 impl Sys for Seq {
     type Act = RegAct;
     type Snap = SeqSnap;
@@ -287,7 +333,7 @@ impl Sys for Seq {
         3
     }
     fn init_snap(&self, i: usize) -> SeqSnap {
-        seq_snap(&seq_init(i))
+        seq_snap_any(&seq_init_any(i, self.memory))
     }
     fn actions(&self, _i: usize, _s: &SeqSnap, _d: usize) -> Vec<RegAct> {
         let mut v = vec![];
@@ -301,28 +347,28 @@ impl Sys for Seq {
         v
     }
     fn step(&self, init: usize, hist: &[RegAct], act: &RegAct, st: &mut Stats) -> Option<SeqSnap> {
-        let store = seq_init(init);
+        let store = seq_init_any(init, self.memory);
         for h in hist {
-            seq_apply(&store, h);
+            seq_apply_any(&store, h);
         }
-        let rc = seq_apply(&store, act);
+        let rc = seq_apply_any(&store, act);
         let mut full = hist.to_vec();
         full.push(act.clone());
-        let case = json!({"seq_init": init, "hist": full});
+        let case = json!({"seq_init": init, "hist": full, "memory": self.memory});
         st.case(&format!("{init}/{full:?}"), true, &format!("seq:{}", rc.outcome));
         st.sample(|| case.clone());
         for (k, d) in rc.findings {
             st.finding(Finding::new(format!("kind={k}"), format!("{d}; in a sequence of {} registrations", full.len()), case.clone()));
         }
         // ids must be pairwise distinct in the store
-        let recs = store.recs();
+        let recs = store.recs_sorted();
         let mut ids: Vec<&Vec<u8>> = recs.iter().map(|r| &r.id).collect();
         ids.sort();
         ids.dedup();
         if ids.len() != recs.len() {
             st.finding(Finding::new("kind=credential-id-reused", "two stored credentials share an id", case));
         }
-        Some(seq_snap(&store))
+        Some(seq_snap_any(&store))
     }
     fn max_depth(&self) -> usize {
         self.depth
@@ -339,13 +385,17 @@ pub fn run(ctx: &Ctx) -> Result<Run, String> {
     for c in cs.iter().step_by(cs.len() / 3 + 1) {
         stats.samples.push(serde_json::to_value(c).unwrap());
     }
-    let g = graph::bfs(&Seq { depth: ctx.tier.pick(3, 4) }, ctx.threads);
-    let (states, transitions) = (g.states, g.transitions);
-    stats.merge(g.stats);
+    let (mut states, mut transitions) = (0u64, 0u64);
+    for memory in [false, true] {
+        let g = graph::bfs(&Seq { depth: ctx.tier.pick(3, 5), memory }, ctx.threads);
+        states += g.states;
+        transitions += g.transitions;
+        stats.merge(g.stats);
+    }
     let single = cs.len() as u64;
     let mut run = Run::from_stats(
         "model_checking",
-        "single registrations: full product of 10 challenges (lengths 0..64, base64url-discriminating bytes) x 6 accepted origin/RP pairs (host=RP, sub-domain, port, IDN, localhost, Android) x 9 algorithm lists (incl. entries of unknown credential type that carry an unsupported algorithm) x 3 client-data modes x counter on/off x {RefStore, Arc<Mutex<MemoryStore>>}, users x orgs x modes x rk, and all 256 requested credential-id lengths; sequences: BFS over register(rp in 2, user in 2, rk) from the empty and two seeded stores. Every response is verified by an independent relying-party implementation and the store delta is compared. Non-trivial = distinct case that produced a credential or the unsupported-algorithm refusal",
+        "single registrations: full product of 10 challenges (lengths 0..64, base64url-discriminating bytes) x 6 accepted origin/RP pairs (host=RP, sub-domain, port, IDN, localhost, Android) x 9 algorithm lists (incl. entries of unknown credential type that carry an unsupported algorithm) x 3 client-data modes x counter on/off x {RefStore, Arc<Mutex<MemoryStore>>}, users x orgs x modes x rk, and all 256 requested credential-id lengths; sequences: BFS over register(rp in 2, user in 2, rk) – so the same account registers repeatedly – from the empty and two seeded stores, on the contract store and on Arc<Mutex<MemoryStore>>. Every response is verified by an independent relying-party implementation and the store delta is compared. Non-trivial = distinct case that produced a credential or the unsupported-algorithm refusal",
         true,
         stats,
     );
@@ -360,13 +410,13 @@ pub fn replay(_ctx: &Ctx, case: &Value) -> Result<Vec<Finding>, String> {
     if case.get("seq_init").is_some() {
         let init = case["seq_init"].as_u64().unwrap_or(0) as usize;
         let hist: Vec<RegAct> = serde_json::from_value(case["hist"].clone()).map_err(|e| format!("bad C02 sequence: {e}"))?;
-        let store = seq_init(init);
+        let store = seq_init_any(init, case["memory"].as_bool().unwrap_or(false));
         let mut out = vec![];
         for (i, h) in hist.iter().enumerate() {
-            let rc = seq_apply(&store, h);
+            let rc = seq_apply_any(&store, h);
             if i + 1 == hist.len() {
                 out = rc.findings.into_iter().map(|(k, d)| Finding::new(format!("kind={k}"), d, case.clone())).collect();
-                let recs = store.recs();
+                let recs = store.recs_sorted();
                 let mut ids: Vec<&Vec<u8>> = recs.iter().map(|r| &r.id).collect();
                 ids.sort();
                 ids.dedup();
